@@ -389,6 +389,16 @@ func (bs *blockState) exec(ins ssa.Instruction) {
 		base := fr.value(x.X)
 		p, ok := base.(*Ptr)
 		if !ok {
+			if t, isT := base.(Term); isT {
+				if _, isStruct := ex.P.sig.Structs[t.Sort]; isStruct {
+					// pointer-to-struct value modelled by its pointee: read-only view
+					c := ex.newCell("deref", t.Sort)
+					bs.st.cells[c] = t
+					p, ok = &Ptr{cell: c}, true
+				}
+			}
+		}
+		if !ok {
 			ex.unsup(pos, "FieldAddr on %T", base)
 			fr.vals[x] = &unknownVal{"fieldaddr"}
 			return
@@ -534,10 +544,19 @@ func (bs *blockState) exec(ins ssa.Instruction) {
 		for _, r := range x.Results {
 			vs = append(vs, fr.value(r))
 		}
-		// byte buffers escape as values
+		// byte buffers escape as values; returned pointers to local structs are modelled by their pointee
 		for i, v := range vs {
 			if b, ok := v.(*BytesRef); ok {
 				vs[i] = ex.define("ret", bs.matBytes(b, pos))
+			}
+			if p, ok := v.(*Ptr); ok && p.cell != nil && len(p.path) == 0 && fr.depth > 0 {
+				if pt, ok := x.Results[i].Type().Underlying().(*types.Pointer); ok {
+					if _, isStruct := pt.Elem().Underlying().(*types.Struct); isStruct {
+						if t, ok := bs.load(p, pos).(Term); ok {
+							vs[i] = t
+						}
+					}
+				}
 			}
 		}
 		bs.rets = append(bs.rets, retRec{cond: bs.reach, vals: vs, st: bs.st})
@@ -809,7 +828,15 @@ func (bs *blockState) nilTest(v ssa.Value, pos token.Pos) Term {
 			return Term{"(= (slen " + x.S + ") 0)", "Bool"}
 		}
 		if _, isPtr := v.Type().Underlying().(*types.Pointer); isPtr {
-			return tFalse // pointer modelled by its pointee: non-nil
+			if _, isParam := v.(*ssa.Parameter); isParam {
+				return tFalse // pointer parameters (messages) are non-nil
+			}
+			if f, ok := fr.nilFlags[v]; ok {
+				return f
+			}
+			f := ex.fresh("isnil", "Bool")
+			fr.nilFlags[v] = f
+			return f
 		}
 	case *Ptr, *FuncVal, *BytesRef, *IterVal:
 		return tFalse
